@@ -51,7 +51,7 @@ CLAIMED = {
                  'non-NaN, UTF-8/ASCII, valid tags, distinct ascending keys); under strict ordering the bytes consumed ARE the encoding of the returned value, so accepted byte strings and values are in one-to-one '
                  'correspondence (C04_strict_bijective, C04_strict_injective) for every type without IndexSet/IndexMap; for EVERY type and byte string the loose decoder accepts exactly what the strict one accepts plus inputs '
                  'the strict one rejects with the key-order error, with identical results otherwise (C04_loose_accepts_more / C04_strict_accepts_less). Known finding F8 (IndexSet/IndexMap accept repeated entries in every mode) is '
-                 'a theorem (C04_index_refuted) and a KNOWN-FINDING line. ' + CORR + ' Bounded-exhaustive short byte strings for ~100 types, Vec-encodings with arbitrary order/repeats fed to every keyed collection, corruptions; '
+                 'a theorem (C04_index_refuted) and a KNOWN-FINDING line. The VALUE returned in non-strict mode for unsorted / repeated entries is pinned down: it is collect_sorted / collect_index of the plain list the same bytes give as a Vec (C04_loose_value), i.e. exactly the last entry of each key in strictly ascending key order - first-occurrence order for index kinds -, unique, every input key present (C04_loose_value_spec); an input the strict decoder accepts had strictly ascending entries and both modes return them (C04_strict_is_loose_on_sorted); every accepted input decodes to a value the encoder accepts (C04_accepted_is_encodable). ' + CORR + ' Bounded-exhaustive short byte strings for ~100 types, Vec-encodings with arbitrary order/repeats fed to every keyed collection, corruptions; '
                  'implementation-only oracles: re-encode equals consumed input (strict build), loose vs strict build differ only by the key-order error.'),
         'design_ref': 'DESIGN.md section 5 C04',
         'technique': 'Coq proof (parser invariant with typing and re-encoding relations; relational induction loose vs strict) + bounded-exhaustive differential correspondence',
@@ -98,7 +98,7 @@ CLAIMED = {
         'text': ('Kernel-checked: for every sequence of read/read_exact/write/write_all/by_ref operations on slice readers, slice writers and Vec writers the model of the no_std shim and the model of the std::io contract produce '
                  'the same observable outcomes wherever std specifies them (C13_io); encoder, decoder and entry points do not depend on which io implementation is used (C13_codec). PARTIAL by nature: that the two BUILDS link '
                  'different collection crates is tied by running both, not by proof. ' + CORR + ' The same seeded workload in the std and no_std+hashbrown builds must give identical transcripts equal to the model\'s; op sequences run '
-                 'against real std::io and the real shim side by side in one binary.'),
+                 'against real std::io and the real shim side by side in one binary (incl. flush and write_fmt, which the model does not have); the overridden write_all of the slice and vector writers equals the default loop over write, so an adaptor that forwards write_all and one that does not are the same writer (C13_write_all_overrides); raw error texts are compared between the builds; failures of every ErrorKind common to std and the shim, with a message or built from the kind alone.'),
         'design_ref': 'DESIGN.md section 5 C13; NOTES-io.md',
         'technique': 'Coq proof (op-sequence equivalence of two io models) + cross-build transcript comparison',
     },
@@ -187,7 +187,7 @@ CLAIMED = {
         'category': 'proof',
         'text': ('Kernel-checked on the transcription of validate_impl/check_length_width/is_zero_size: total (no panic, fuel never exhausted) for every container; '
                  'is_zero_size = Ok true iff the inductive ZeroSized holds (every other answer refutes it); validate = Ok iff WellFormed (the conjunction in the property statement); '
-                 'the declaration blamed by an error is reachable and has the named defect. ' + CORR + ' Same container corpus under catch_unwind, hostile ranges/widths/cycles included.'),
+                 'the declaration blamed by an error is reachable and has the named defect. ZeroSized is the code\'s least-fixed-point notion; that it is strictly weaker than "every value is empty" through untagged cycles is a theorem with a witness (C10_zero_sized_semantic_refuted, finding F25). ' + CORR + ' Same container corpus under catch_unwind, hostile ranges/widths/cycles included; implementation-only oracle with the greatest-fixed-point notion of zero-sized; a 200000-link chain of definitions in a child with an 8 MiB stack (finding F20).'),
         'design_ref': 'DESIGN.md section 5 C10; NOTES-schema.md',
         'technique': 'Coq proof (fuel induction, height-indexed derivations) + bounded-exhaustive container correspondence',
     },
